@@ -449,3 +449,46 @@ func H_C01_two_sends() {
 	verifPar(func() { b.Send(ctx, "t", "one") }, func() { b.Send(ctx, "t", "two") })
 	verifReach("C01.two-sends.end")
 }
+
+// a node id listed at several positions of one pipeline: the pipeline is built position by position (the node is invoked
+// once per position it is listed at), and the shape rule applies to the positions as given, not to the set of ids
+func H_C05_repeated_ids() {
+	N := verifParam("NR")
+	b, _ := NewBroker()
+	n := symLen(2, N)
+	var nodes [5]*vNode
+	names := [5]NodeID{"n0", "n1", "n2", "n3", "n4"}
+	for i := 0; i < n; i++ {
+		nodes[i] = &vNode{typ: NodeType(nondetInt())}
+		verifAssume(nodes[i].typ >= 0 && nodes[i].typ <= 4)
+		b.RegisterNode(names[i], nodes[i])
+	}
+	// position i lists its own node or repeats an earlier position's
+	var ids []NodeID
+	var at [5]int
+	for i := 0; i < n; i++ {
+		at[i] = symLen(0, i)
+		if at[i] != i {
+			at[i] = at[at[i]]
+		}
+		ids = append(ids, names[at[i]])
+	}
+	err := b.RegisterPipeline(Pipeline{PipelineID: "p", EventType: "t", NodeIDs: ids})
+	last, prev := nodes[at[n-1]].typ, nodes[at[n-2]].typ
+	want := verifAnd(last == NodeTypeSink, verifOr(prev == NodeTypeFormatter, prev == NodeTypeFormatterFilter))
+	verifAssert((err == nil) == want, "C05.repeated.accepted-iff-last-positions-well-formed")
+	if err == nil {
+		b.Send(&vCtx{}, "t", "payload")
+		for j := 0; j < n; j++ {
+			listed := 0
+			for i := 0; i < n; i++ {
+				if at[i] == j {
+					listed++
+				}
+			}
+			verifAssert(nodes[j].procCalls == listed, "C01.repeated.node-invoked-once-per-position")
+		}
+		verifReach("C05.repeated.accepted")
+	}
+	verifReach("C05.repeated.end")
+}
